@@ -93,6 +93,19 @@ class NoneV(V):
 
 
 @dataclass
+class Xv(V):
+    """a module-level sentinel `NAME = object()`: identical to itself only"""
+    name: str
+
+
+@dataclass
+class Itv(V):
+    """iter(seq) / reversed(seq) over an abstract sequence, not yet advanced"""
+    seq: 'Seq'
+    backwards: bool
+
+
+@dataclass
 class Uv(V):
     unit: U
 
@@ -452,6 +465,16 @@ class State:
                 if h.opposite(g):
                     return None
             if g.kind == 'isinstance' and not isinstance_feasible(self.guards + (g,)):
+                return None
+            # None is an instance of no class of the package: `x is None` after a passed `isinstance(x, C)` (and the other way round)
+            if g.kind == 'isnone' and g.pol and any(h.kind == 'isinstance' and h.pol and h.key[0] == g.key[0]
+                                                     and 'NoneType' not in h.key[1] for h in self.guards):
+                return None
+            if g.kind == 'isnone' and not g.pol and any(h.kind == 'isinstance' and h.pol and h.key[0] == g.key[0]
+                                                         and 'NoneType' not in h.key[1] for h in self.guards):
+                return self
+            if g.kind == 'isinstance' and g.pol and 'NoneType' not in g.key[1] and any(
+                    h.kind == 'isnone' and h.pol and h.key[0] == g.key[0] for h in self.guards):
                 return None
         s = self.copy()
         s.guards = self.guards + (g,)
@@ -1212,6 +1235,11 @@ class SX:
             s, v = r
             t = self.truth(v)
             if t is True:
+                if narrow and isinstance(s.env.get(narrow[0]), Q):
+                    # a typed value that passed isinstance(x, <quantity class>) is not None from here on
+                    nm = self.none_name(s.env[narrow[0]])
+                    if nm is not None:
+                        s = s.with_guard(G('isnone', (nm,), False)) or s
                 tr.append(s)
             elif t is False:
                 fa.append(s)
@@ -2073,6 +2101,8 @@ class SX:
                 return Q(kind, v * self.tables.factor(kind, unit.value), U(lit=unit.value))
         if isinstance(node, ast.Constant):
             return self.const_value(node)
+        if isinstance(node, ast.Call) and isinstance(node.func, ast.Name) and node.func.id == 'object' and not node.args and not node.keywords:
+            return Xv(f'{mod}:{ident}')
         if isinstance(node, ast.Lambda):
             return Lv(node, mod)
         if isinstance(node, ast.Attribute) and isinstance(node.value, ast.Name) and node.value.id == 'operator':
@@ -2476,6 +2506,12 @@ class SX:
                     return Bv(neg)
                 g = G('isnone', (name,))
                 return Bsym(g.negate() if neg else g)
+            if isinstance(l, Xv) or isinstance(r, Xv):
+                x, other = (l, r) if isinstance(l, Xv) else (r, l)
+                if isinstance(other, Xv):
+                    return Bv((other.name == x.name) != neg)
+                if isinstance(other, (Q, N, Sv, Tv, NoneV, Bv, Cv, Dv, Uv)) or (isinstance(other, Ov) and other.cls not in (None, 'object')):
+                    return Bv(neg)          # a value of another type is never the sentinel object
             if isinstance(r, Bv) and isinstance(l, (Bv, NoneV)):
                 # `flag is False` on a concrete flag: True / False / None are singletons
                 same = isinstance(l, Bv) and l.b is r.b
@@ -3013,6 +3049,20 @@ class SX:
         if name in ('min', 'max') and len(args) == 1 and isinstance(args[0], Seq) and not kwargs:
             nm = f'{name}({args[0].path})'
             return [(st, self.typed_atom(nm, args[0].elem, nm))]
+        if name in ('iter', 'reversed') and len(args) == 1 and isinstance(args[0], Seq) and name not in m.functions:
+            return [(st, Itv(args[0], name == 'reversed'))]
+        if name == 'next' and len(args) in (1, 2) and isinstance(args[0], Itv) and not kwargs:
+            # first element of a fresh iterator over an abstract sequence: its last / first element when it has one, else the default
+            it = args[0]
+            g = G('truth', (it.seq.path,))
+            res = []
+            s_yes = st.with_guard(g)
+            if s_yes is not None:
+                res.append((s_yes, self.subscript(it.seq, N(Rat.const(-1 if it.backwards else 0), 'int'), s_yes, frame, n)))
+            s_no = st.with_guard(g.negate())
+            if s_no is not None:
+                res.append((s_no, args[1]) if len(args) == 2 else Outcome(s_no, 'raise', 'StopIteration', n.lineno))
+            return res
         if name == 'isclose' and len(args) == 2 and all(isinstance(a, (N, Dyn)) for a in args) and name not in m.functions \
                 and set(kwargs) <= {'rel_tol', 'abs_tol'} and all(isinstance(v, (N, Dyn)) for v in kwargs.values()):
             # math.isclose(a, b, rel_tol=1e-09, abs_tol=0.0)  ==  |a - b| <= max(rel_tol * max(|a|, |b|), abs_tol)
